@@ -52,14 +52,14 @@ type scenario struct {
 }
 
 func scenarios() []scenario {
-	return []scenario{
+	return append([]scenario{
 		{"conserve/stats", "stats", conserveStats},
 		{"conserve/twcc.HeaderExtension", "twcc", conserveTWCCHeaderExtension},
 		{"conserve/report.Sender", "report", conserveReportSender},
 		{"conserve/report.Receiver", "report", conserveReportReceiver},
 		{"uar/nack.Responder", "nack", func(scale int) error { return uarNackResponder(scale, false) }},
 		{"uar/nack.Responder+rtx", "nack", func(scale int) error { return uarNackResponder(scale, true) }},
-	}
+	}, reenterScenarios()...)
 }
 
 var reportMu sync.Mutex
